@@ -14,7 +14,7 @@ from vf.core import h64
 PROP = "C19"
 SHARDS = {"quick": 8, "thorough": 16}
 TIME_CAP = {"quick": 60, "thorough": 840}
-REQUIRED = ["programs", "schemas_built", "validate_schema_checks", "print_schema_checks", "mapping_types_checked", "mapping_fields_checked",
+REQUIRED = ["element_conversion_type_checks", "element_conversion_executions", "programs", "schemas_built", "validate_schema_checks", "print_schema_checks", "mapping_types_checked", "mapping_fields_checked",
             "mapping_args_checked", "mapping_input_fields_checked", "mapping_enum_checked", "mapping_union_checked", "mapping_interface_checked",
             "mapping_id_positions", "exec_everything_queries", "exec_data_equal", "exec_enum_leaves", "exec_literal_leaves", "exec_undefined_leaves",
             "exec_id_leaves", "exec_flattened_leaves", "exec_resolver_leaves", "exec_fragment_objects", "arg_valid_experiments", "arg_valid_agree",
@@ -973,8 +973,139 @@ def one_program(env, prog_seed, rich=False):
     return run
 
 
+CONV_SRC = """
+from dataclasses import dataclass, field
+from typing import Dict, List, Optional
+from apischema.graphql import Query, graphql_schema
+from apischema.metadata import conversion
+
+
+@dataclass
+class A:
+    i: int
+
+
+def a_to_int(a: A) -> int:
+    return a.i
+
+
+def a_to_str(a: A) -> str:
+    return "s" + str(a.i)
+
+
+@dataclass
+class H:
+    xs: List[A] = field(metadata=conversion(serialization=a_to_int))
+    o: Optional[A] = field(default=None, metadata=conversion(serialization=a_to_str))
+    xss: List[List[A]] = field(default_factory=list, metadata=conversion(serialization=a_to_int))
+    ox: Optional[List[A]] = field(default=None, metadata=conversion(serialization=a_to_str))
+    plain: List[A] = field(default_factory=list)
+    one: A = field(default_factory=lambda: A(7), metadata=conversion(serialization=a_to_int))
+
+
+VALUES = {
+    "h": H([A(1), A(2)], A(3), [[A(4)], []], [A(5)], [A(6)]),
+    "conv_list": [A(1), A(2)],
+    "conv_opt": A(3),
+    "conv_nested": [A(1), None],
+    "conv_lists": [[A(1)], [A(2), A(3)]],
+    "plain_list": [A(8)],
+    "hs": [H([A(9)])],
+}
+
+
+def h() -> H:
+    return VALUES["h"]
+
+
+def conv_list() -> List[A]:
+    return VALUES["conv_list"]
+
+
+def conv_opt() -> Optional[A]:
+    return VALUES["conv_opt"]
+
+
+def conv_nested() -> List[Optional[A]]:
+    return VALUES["conv_nested"]
+
+
+def conv_lists() -> List[List[A]]:
+    return VALUES["conv_lists"]
+
+
+def plain_list() -> List[A]:
+    return VALUES["plain_list"]
+
+
+def hs() -> List[H]:
+    return VALUES["hs"]
+
+
+RETURNS = {"h": H, "conv_list": List[A], "conv_opt": Optional[A], "conv_nested": List[Optional[A]], "conv_lists": List[List[A]], "plain_list": List[A], "hs": List[H]}
+CONVS = {"conv_list": a_to_int, "conv_opt": a_to_str, "conv_nested": a_to_int, "conv_lists": a_to_str}
+SCHEMA = graphql_schema(query=[h, hs, plain_list] + [Query(globals()[n], conversion=c) for n, c in CONVS.items()])
+"""
+
+CONV_EXPECTED = {  # GraphQL type strings: the conversion reaches through lists and Optional, down to the elements
+    ("Query", "convList"): "[Int!]!", ("Query", "convOpt"): "String", ("Query", "convNested"): "[Int]!", ("Query", "convLists"): "[[String!]!]!",
+    ("Query", "plainList"): "[A!]!", ("Query", "h"): "H!", ("Query", "hs"): "[H!]!",
+    ("H", "xs"): "[Int!]!", ("H", "o"): "String", ("H", "xss"): "[[Int!]!]!", ("H", "ox"): "[String!]", ("H", "plain"): "[A!]!", ("H", "one"): "Int!",
+}
+
+
+def conversion_workload(env):
+    """dynamic (operation-level) and field-level serialization conversions aimed at the elements of lists / the content of Optional:
+    the schema shows the converted type where execution applies the conversion; executing a query selecting every field returns
+    serialize(T, v) with the same conversions"""
+    import sys
+    import types
+
+    import graphql
+    from apischema import serialize
+    from apischema.utils import to_camel_case
+
+    mod = types.ModuleType(f"vfc19conv_{env.shard}")
+    sys.modules[mod.__name__] = mod
+    try:
+        harness.reset_all()
+        try:
+            exec(compile(CONV_SRC, f"<{mod.__name__}>", "exec"), mod.__dict__)
+        except Exception as e:
+            env.violation({"kind": "schema-build-raises", "family": "element-conversions", "exc": type(e).__name__}, {"program": CONV_SRC, "message": str(e)[:300]})
+            return
+        schema = mod.SCHEMA
+        wit = {"program": CONV_SRC}
+        for (tname, fname), want in CONV_EXPECTED.items():
+            env.count("element_conversion_type_checks")
+            env.case("element-conversions", "type", tname, fname)
+            t = schema.type_map.get(tname)
+            f = t.fields.get(fname) if t is not None else None
+            got = str(f.type) if f is not None else None
+            if got != want:
+                env.violation({"kind": "type-mismatch", "family": "element-conversions", "view": "operation" if tname == "Query" else "field",
+                               "shape": want.replace("Int", "X").replace("String", "X")}, {**wit, "type": tname, "field": fname, "expected": want, "observed": got})
+        hsel = "{ xs o xss ox plain { i } one }"
+        sels = {"h": hsel, "hs": hsel, "plain_list": "{ i }"}
+        for name, ret in mod.RETURNS.items():
+            env.count("element_conversion_executions")
+            env.case("element-conversions", "exec", name)
+            q = "{ " + to_camel_case(name) + " " + sels.get(name, "") + " }"
+            res = graphql.graphql_sync(schema, q)
+            kw = {"conversion": mod.CONVS[name]} if name in mod.CONVS else {}
+            exp = serialize(ret, mod.VALUES[name], aliaser=to_camel_case, **kw)
+            if res.errors or res.data != {to_camel_case(name): exp}:
+                env.violation({"kind": "exec-errors" if res.errors else "data-mismatch", "family": "element-conversions", "operation": name},
+                              {**wit, "query": q, "errors": [str(e)[:200] for e in (res.errors or [])][:3], "data": res.data, "expected": exp})
+    finally:
+        sys.modules.pop(mod.__name__, None)
+        harness.reset_all()
+
+
 def run(env):
     harness.tag_errors(False)
+    if env.shard == 0:
+        conversion_workload(env)
     n = env.n(1000, 30000)
     for j in range(n):
         if env.out_of_time():
@@ -994,6 +1125,9 @@ def finish_coverage(cov, counters, tier):
 def replay(env, rep):
     w = rep["witness"]
     env.tier = w.get("tier", "quick")
-    one_program(env, w["prog_seed"])
+    if "prog_seed" not in w:  # witness of the fixed element-conversions family
+        conversion_workload(env)
+    else:
+        one_program(env, w["prog_seed"])
     want = json.dumps(rep["features"], sort_keys=True, default=str)
     env.violations = [v for v in env.violations if json.dumps(v["features"], sort_keys=True, default=str) == want][:1]
